@@ -9,6 +9,8 @@ package main
 //  (R) valid note text, any signers, any known verifiers: Sign then Open returns the same text with the
 //      signatures partitioned into verified (known) / unverified (unknown) in order.
 //  (M) any byte-level mutation of a signed message: Open never returns a different text as verified.
+//  (P) Open -> Sign -> Open: an existing signature is elided by Sign only if a signer uses the same key; all
+//      others (verified and unverified, also several distinct ones of one key) are emitted, before the new ones.
 //  (A) VerifierList with two verifiers for one (name, hash): lookup fails, Open fails.
 
 import (
@@ -245,7 +247,9 @@ func oracleC07(g *Gen, n int) {
 		return
 	}
 	for it := 0; it < n; it++ {
-		switch r.Intn(12) {
+		switch r.Intn(14) {
+		case 12, 13:
+			c07OracleReSign(g, keys)
 		case 0, 1, 2:
 			c07OracleRoundTrip(g, keys)
 		case 3, 4:
@@ -749,6 +753,272 @@ func c07OracleRelay(g *Gen, keys []c07Real) {
 			g.Fail("message with no known signature: expected UnverifiedNoteError", info+" got="+got)
 		} else if ue.Note.Text != text || !c07SigEq(ue.Note.UnverifiedSigs, wantU) || len(ue.Note.Sigs) != 0 {
 			g.Fail("UnverifiedNoteError carries the wrong note", info+" got="+got)
+		}
+	}
+}
+
+// c07RSKey: a key of the re-sign histories, either a stub key (replayable through the op lines) or a real Ed25519 key.
+type c07RSKey struct {
+	k     c07Key
+	sign  func(text string) []byte
+	v     note.Verifier
+	s     note.Signer
+	vspec string // stub verifier spec / real verifier key
+	sspec string // stub signer spec ("" for a real key)
+}
+
+// c07OracleReSign: (P) on multi-step histories Open -> Sign -> Open.
+//
+// Input class "several DISTINCT signature lines of one (name, key hash)" fed back into Sign (added for r4-C07-b).
+// It was missing because every Note the oracle passed to Sign was either fresh or came from Open of a message
+// that Sign itself had produced: such a message has one signature per signer, and repeated signers give
+// byte-identical lines (the signers are deterministic), which Open drops. The hand-built blocks (built / relay)
+// do carry distinct lines of one key but were only opened, never re-signed. Here a block is built by hand with
+// 1-3 distinct signature lines per key (the genuine signature and corrupted variants, in either order, interleaved
+// over keys, plus identical repeats), opened with a random known set (the multi-line keys known or unknown; when no
+// key is known the Note carried by UnverifiedNoteError is used), re-signed with zero, old or new signers, and
+// opened again with the same or another known set. Expected: the re-signed message carries every existing signature
+// whose key no signer uses, then the signers' lines; Open of it is what the property text says for that block
+// (c07ExpectBlock).
+func c07OracleReSign(g *Gen, keys []c07Real) {
+	r := g.Rand
+	text := c07GoodText(r)
+	if !c07ValidText(text) {
+		return
+	}
+	g.Case("resign")
+	real := r.Chance(50)
+	var u []c07RSKey
+	used := map[c07Key]bool{}
+	for want, try := 2+r.Intn(3), 0; len(u) < want && try < 40; try++ {
+		if real {
+			k := keys[r.Intn(len(keys))]
+			ck := c07Key{k.name, k.verifier.KeyHash()}
+			if used[ck] {
+				continue
+			}
+			used[ck] = true
+			signer := k.signer
+			u = append(u, c07RSKey{k: ck, v: k.verifier, s: k.signer, vspec: k.vkey,
+				sign: func(t string) []byte { b, _ := signer.Sign([]byte(t)); return b }})
+		} else {
+			ck := c07Key{r.Pick(c07Names), c07PickHash(r)}
+			if len(u) > 0 && r.Chance(30) {
+				ck.name = u[r.Intn(len(u))].k.name // same name, another hash: another key
+			}
+			if used[ck] || !c07NameOK(ck.name) {
+				continue
+			}
+			used[ck] = true
+			name := ck.name
+			u = append(u, c07RSKey{k: ck, vspec: c07KeySpec(ck, "f"), sspec: c07KeySpec(ck, "f"),
+				s:    &c07Signer{ck.name, ck.hash, 'f'},
+				sign: func(t string) []byte { return c07StubSig(name, []byte(t)) }})
+		}
+	}
+	if len(u) < 2 {
+		return
+	}
+	byKey := map[c07Key]*c07RSKey{}
+	for i := range u {
+		byKey[u[i].k] = &u[i]
+	}
+	good := func(l c07BLine) bool {
+		k := byKey[c07Key{l.name, l.hash}]
+		if k != nil && k.v != nil { // real key: what its verifier says
+			return k.v.Verify([]byte(text), l.sig)
+		}
+		return k != nil && bytes.Equal(l.sig, k.sign(text)) // stub key, behaviour f
+	}
+	// a known set over the universe: logging verifiers, the spec for replay
+	mkKnown := func() (map[c07Key]bool, []note.Verifier, string, *[]c07Call) {
+		known := map[c07Key]bool{}
+		var specs []string
+		var plain []note.Verifier
+		for _, k := range u {
+			if r.Chance(50) {
+				known[k.k] = true
+				specs = append(specs, k.vspec)
+				plain = append(plain, k.v)
+			}
+		}
+		log := new([]c07Call)
+		if real {
+			return known, c07Wrap(plain, log), strings.Join(specs, " "), log
+		}
+		return known, c07ParseVerifiers(c07Join(specs), log), c07Join(specs), log
+	}
+	// the block: the first nk keys of the universe have lines, 1-3 distinct ones each
+	nk := 1 + r.Intn(len(u))
+	queues := make([][]c07BLine, nk)
+	multi := false
+	for i := 0; i < nk; i++ {
+		g0 := u[i].sign(text)
+		nl := 1 + r.Intn(3)
+		var q []c07BLine
+		q = append(q, c07BLine{u[i].k.name, u[i].k.hash, g0})
+		for j := 1; j < nl; j++ {
+			bad := append([]byte(nil), g0...)
+			bad[(j*2+r.Intn(2))%len(bad)] ^= byte(1 << uint(r.Intn(8))) // distinct bytes for distinct j (len >= 5)
+			q = append(q, c07BLine{u[i].k.name, u[i].k.hash, bad})
+		}
+		if nl > 1 {
+			multi = true
+			if r.Chance(25) { // the genuine signature is not the first one
+				j := 1 + r.Intn(nl-1)
+				q[0], q[j] = q[j], q[0]
+			}
+		}
+		queues[i] = q
+	}
+	if multi {
+		g.Case("resign-multi")
+	}
+	var lines []c07BLine
+	for left := nk; left > 0; {
+		i := r.Intn(nk)
+		if len(queues[i]) == 0 {
+			continue
+		}
+		lines = append(lines, queues[i][0])
+		if queues[i] = queues[i][1:]; len(queues[i]) == 0 {
+			left--
+		}
+	}
+	if r.Chance(20) { // an identical repeat
+		at := r.Intn(len(lines) + 1)
+		l := lines[r.Intn(len(lines))]
+		lines = append(append(append([]c07BLine{}, lines[:at]...), l), lines[at:]...)
+	}
+	build := func(ls []c07BLine) string {
+		var b strings.Builder
+		b.WriteString(text + "\n")
+		for _, l := range ls {
+			b.WriteString(c07SigLine(l.name, l.hash, l.sig))
+		}
+		return b.String()
+	}
+	msg1 := build(lines)
+	known1, vs1, spec1, log1 := mkKnown()
+	var ops []string
+	info := "real keys: msg=" + hx(msg1) + " known=" + spec1
+	if !real {
+		ops = append(ops, "note.open "+hx(msg1)+" L "+spec1)
+		info = "stub keys"
+	}
+	// first Open
+	wantErr, wantV, wantU, _ := c07ExpectBlock(lines, func(k c07Key) bool { return known1[k] }, good)
+	nt, err := note.Open([]byte(msg1), note.VerifierList(vs1...))
+	c07CheckSound(g, []byte(msg1), vs1, nt, err, *log1, info, ops...)
+	var n1 *note.Note
+	switch wantErr {
+	case "":
+		if err != nil {
+			g.Fail("well-formed message whose known keys all verify does not open", info+" got="+c07ShowOpen(nt, err), ops...)
+			return
+		}
+		n1 = nt
+	case "unverified":
+		var ue *note.UnverifiedNoteError
+		if !errors.As(err, &ue) {
+			g.Fail("message with no known signature: expected UnverifiedNoteError", info+" got="+c07ShowOpen(nt, err), ops...)
+			return
+		}
+		n1 = ue.Note
+	default: // a known key's first line is bad: Open must fail, nothing to re-sign
+		if err == nil {
+			g.Fail("a known key with a bad signature did not make Open fail", info, ops...)
+		}
+		return
+	}
+	if n1.Text != text || !c07SigEq(n1.Sigs, wantV) || !c07SigEq(n1.UnverifiedSigs, wantU) {
+		g.Fail("wrong text or verified/unverified partition", info+" got="+c07ShowOpen(nt, err), ops...)
+		return
+	}
+	// Sign with zero, old (keys with lines) or new (keys without lines) signers
+	var signers []note.Signer
+	var sspecs []string
+	signs := map[c07Key]bool{}
+	if r.Chance(65) {
+		for i := 1 + r.Intn(2); i > 0; i-- {
+			k := u[r.Intn(len(u))]
+			signers = append(signers, k.s)
+			sspecs = append(sspecs, k.sspec)
+			signs[k.k] = true
+		}
+	}
+	if !real {
+		ops = append(ops, "note.sign "+hx(text)+" "+c07ShowSigs(n1.Sigs)+" "+c07ShowSigs(n1.UnverifiedSigs)+" "+c07Join(sspecs))
+	} else {
+		info += fmt.Sprintf(" signers=%d", len(signers))
+		for _, s := range signers {
+			info += " " + hx(s.Name())
+		}
+	}
+	msg2, err := note.Sign(n1, signers...)
+	if err != nil {
+		g.Fail("re-signing an opened note failed", info, ops...)
+		return
+	}
+	if !bytes.HasPrefix(msg2, []byte(text+"\n")) {
+		g.Fail("re-signed message does not start with the note text and a blank line", info, ops...)
+		return
+	}
+	var lines2 []c07BLine
+	for _, s := range append(append([]note.Signature{}, n1.Sigs...), n1.UnverifiedSigs...) {
+		if signs[c07Key{s.Name, s.Hash}] {
+			continue
+		}
+		raw, _ := base64.StdEncoding.DecodeString(s.Base64) // checked by the partition comparison above
+		lines2 = append(lines2, c07BLine{s.Name, s.Hash, raw[4:]})
+		if !bytes.Contains(msg2[len(text):], []byte("\n— "+s.Name+" "+s.Base64+"\n")) {
+			g.Fail("Sign dropped an existing signature whose key no signer uses", info+" resigned="+hx(string(msg2)), ops...)
+		}
+	}
+	for _, s := range signers {
+		k := byKey[c07Key{s.Name(), s.KeyHash()}]
+		lines2 = append(lines2, c07BLine{k.k.name, k.k.hash, k.sign(text)})
+	}
+	// second Open: the same known set, or another one
+	known2, vs2, spec2, log2 := known1, vs1, spec1, log1
+	if r.Chance(50) {
+		known2, vs2, spec2, log2 = mkKnown()
+	}
+	*log2 = nil
+	if !real {
+		ops = append(ops, "note.open "+hx(string(msg2))+" L "+spec2)
+	} else {
+		info += " resigned=" + hx(string(msg2)) + " known2=" + spec2
+	}
+	wantErr, wantV, wantU, badKey := c07ExpectBlock(lines2, func(k c07Key) bool { return known2[k] }, good)
+	nt2, err := note.Open(msg2, note.VerifierList(vs2...))
+	c07CheckSound(g, msg2, vs2, nt2, err, *log2, info, ops...)
+	got := c07ShowOpen(nt2, err)
+	switch wantErr {
+	case "":
+		if len(lines2) == 0 {
+			break // not reachable: no lines means no verified signature
+		}
+		if err != nil {
+			g.Fail("Open -> Sign -> Open: the re-signed note does not open", info+" got="+got, ops...)
+		} else if nt2.Text != text || !c07SigEq(nt2.Sigs, wantV) || !c07SigEq(nt2.UnverifiedSigs, wantU) {
+			g.Fail("Open -> Sign -> Open: wrong text or verified/unverified partition of the re-signed note", info+" got="+got, ops...)
+		}
+	case "invalidsig":
+		var ie *note.InvalidSignatureError
+		if !errors.As(err, &ie) || ie.Name != badKey.name || ie.Hash != badKey.hash {
+			g.Fail("Open -> Sign -> Open: bad signature of a newly known key not reported as InvalidSignatureError for that key", info+" got="+got, ops...)
+		}
+	case "unverified":
+		var ue *note.UnverifiedNoteError
+		if len(lines2) == 0 {
+			if err == nil {
+				g.Fail("message without signatures opened", info, ops...)
+			}
+		} else if !errors.As(err, &ue) {
+			g.Fail("Open -> Sign -> Open: expected UnverifiedNoteError", info+" got="+got, ops...)
+		} else if ue.Note.Text != text || !c07SigEq(ue.Note.UnverifiedSigs, wantU) || len(ue.Note.Sigs) != 0 {
+			g.Fail("Open -> Sign -> Open: UnverifiedNoteError carries the wrong unverified signatures", info+" got="+got, ops...)
 		}
 	}
 }
